@@ -1,1 +1,70 @@
-//! C43: not implemented yet.
+//! C43 — The PTP clock controller reports and steers consistently.
+//!
+//! Same explicit-state exploration of `KalmanController` + `KalmanLink` + mock clock as
+//! C42 part (b) (the machinery lives in `c42.rs`), with the C43 oracles switched on:
+//!
+//! * after every transition and for every internal clock: the public
+//!   `clock_frequency(id)` is bit-identical (value and uncertainty) to the filter's frequency
+//!   estimate; the filter's frequency estimate itself is cross-checked against its
+//!   meaning (the offset estimate moves by `frequency * 1 s` when only 1 s passes);
+//! * every `set_frequency(f)` recorded by a mock clock satisfies `|f| <= max_frequency()`
+//!   of that very clock;
+//! * for every measurement (mock clock frozen during the call): a twin of the filter is
+//!   advanced by the same progress + measurement but not steered (= pre-steer estimate);
+//!   for every steered clock `estimate_after - estimate_before` equals the applied step
+//!   (sum of `step_clock` arguments) resp. the applied frequency change
+//!   (`set_frequency` argument - `get_frequency()` before) within 4 ulp of the larger
+//!   operand (+ 2^-64 s, the resolution of the `Duration` the step is handed over in),
+//!   and the component that was not steered does not move.
+extern crate std;
+use std::prelude::v1::*;
+use std::{format, println, vec};
+
+use super::c42::{b_describe, b_run_hist, run_b, Which};
+use super::common::{self, Ctx};
+
+const W: Which = Which { c42: false, c43: true };
+
+fn replay(ctx: &Ctx, trace: &str) -> String {
+    let (which, hist) = trace.split_once(';').unwrap_or(("?", ""));
+    if which != "b" {
+        return "unknown trace kind".into();
+    }
+    match b_run_hist(ctx, W, hist) {
+        Some(s) => b_describe(&s),
+        None => "unparseable or inapplicable trace".into(),
+    }
+}
+
+#[test]
+fn check() {
+    let ctx = Ctx::new("C43");
+    if let Some(t) = common::replay_trace() {
+        let a = replay(&ctx, &t);
+        let b = replay(&ctx, &t);
+        common::report_replay("C43", &a, &b, ctx.violation_count() > 0);
+        return;
+    }
+    let depth = if ctx.quick() { 6 } else { 8 };
+    ctx.rule(&format!(
+        "BFS over op sequences on clones of the real KalmanController (+KalmanLink, frozen mock clocks with distinct max_frequency 100/50/200 ppm), \
+         de-duplicated on exact f64 bits + structure + mock clock state: ops {{add clock, add external, remove clock/external (every present id, unknown, stale), \
+         create tracked/untracked link (every ordered pair, self, unknown endpoint), drop link, measurement (both directions; fixed value alphabet reaching \
+         step / frequency-unclamped / frequency-clamped steering), warm (8 alternating measurements), clock time moves dt in {{0,+1s,-1s}}}}, <=3 clocks, <=2 links, \
+         depth {depth} after each of 3 seed histories. Non-trivial & distinct = (state, clock) with a non-zero step or frequency change checked, \
+         or a frequency query in a state whose offset estimate differs from its frequency estimate."
+    ));
+    ctx.assume("mock clocks are frozen during a controller call and never fail; clock errors in the middle of steer_clocks are not enumerated");
+    ctx.assume("pre-steer estimate = clone of the controller's filter (crate-root view of the private state) advanced by the filter's own progress_time + measurement");
+    ctx.assume("tolerance: 4 ulp of the largest operand, plus 2^-64 s for steps (Duration resolution)");
+    ctx.assume("measurement values are a fixed alphabet, not all of R");
+    run_b(&ctx, W, depth);
+    let tr = ctx.get("b_transitions");
+    ctx.set("transitions", tr);
+    ctx.set(
+        "evaluations",
+        ctx.get("c43_steer_checks") + ctx.get("c43_frequency_queries") + ctx.get("c43_set_frequency_calls"),
+    );
+    ctx.exhaustive(ctx.get("b_depth_completed") == depth);
+    ctx.finish();
+}
